@@ -192,6 +192,7 @@ func (s *server) onWebSocket(ctx *types.HttpContext, wsc *types.WebSocketConn) {
 		wsc.Close()
 	} else {
 		server_log.Debug("upgrading existing transport")
+		utils.VerifYield("ws.candidate.gate", id)
 
 		// transport error handling takes over
 		wsc.RemoveListener("error", onUpgradeError)
@@ -202,6 +203,7 @@ func (s *server) onWebSocket(ctx *types.HttpContext, wsc *types.WebSocketConn) {
 			wsc.Close()
 		} else {
 			transport.SetPerMessageDeflate(s.Opts().PerMessageDeflate())
+			utils.VerifYield("ws.candidate.attach", id)
 			client.MaybeUpgrade(transport)
 		}
 	}
